@@ -183,7 +183,11 @@ func setup(t interface{ Fatalf(string, ...interface{}) }) (*fixture.ScriptConn, 
 	}
 	sess := ctx.GetSessionForConnection(conn)
 	sess.SetCryptographer(sec)
-	sess.Decrypter() // the first read after pair-verify activates the cryptographer
+	// what happens on a real connection after the verify-finish handler: the pending response
+	// is written (in plaintext), then the server reads the next request
+	hc.Write([]byte("HTTP/1.1 200 OK\r\nContent-Length: 0\r\n\r\n"))
+	hc.Read(make([]byte, 1))
+	conn.Writes = nil
 	a2c, _ := refctl.SessionKeys(secret[:])
 	return conn, hc, a2c, func() { hap.VerifYield = nil; hc.Close() }
 }
